@@ -22,6 +22,7 @@ import (
 	"sync/atomic"
 	"time"
 
+	"github.com/aukilabs/go-tooling/pkg/errors"
 	"github.com/aukilabs/go-tooling/pkg/logs"
 	"github.com/aukilabs/hagall-common/messages/dagazpb"
 	"github.com/aukilabs/hagall-common/messages/hagallpb"
@@ -103,6 +104,8 @@ type client struct {
 	got    []hwebsocket.Msg
 	closed chan struct{}
 	name   string
+	// messages the common library's receive function refused for want of a timestamp
+	unreadable int32
 }
 
 func (s *server) dial(name string, read bool) *client {
@@ -127,6 +130,11 @@ func (c *client) readLoop() {
 	for {
 		m, _, err := hwebsocket.Receive(c.ws)
 		if err != nil {
+			if errors.Type(err) == hwebsocket.ErrTypeMsgMissingTimestamp {
+				// the frame was read, the common library refuses what is in it: counted, the connection goes on
+				atomic.AddInt32(&c.unreadable, 1)
+				continue
+			}
 			return
 		}
 		c.mu.Lock()
@@ -430,20 +438,21 @@ func newWorld(seed int64, idle, frame time.Duration) *world {
 	w.entityW1, _ = w.w1.addEntity()
 	// the witnesses are well-behaved clients: they keep talking, so the idle timeout is not for them
 	w.stop = make(chan struct{})
-	go func() {
-		t := time.NewTicker(idle / 4)
-		defer t.Stop()
-		for {
-			select {
-			case <-w.stop:
-				return
-			case <-t.C:
-				for _, c := range []*client{w.w1, w.w2, w.w3} {
+	// (each on its own clock: a witness whose socket is backed up must not keep the others from talking)
+	for _, c := range []*client{w.w1, w.w2, w.w3} {
+		go func(c *client) {
+			t := time.NewTicker(idle / 4)
+			defer t.Stop()
+			for {
+				select {
+				case <-w.stop:
+					return
+				case <-t.C:
 					c.send(&hagallpb.Request{Type: hagallpb.MsgType_MSG_TYPE_PING_REQUEST, Timestamp: now(), RequestId: 1})
 				}
 			}
-		}
-	}()
+		}(c)
+	}
 	return w
 }
 
@@ -497,6 +506,14 @@ func (w *world) leaves(pid uint32) int {
 func (w *world) finish(v *verdict, pid uint32, wait time.Duration) *verdict {
 	if v == nil {
 		v = w.witnessesFine()
+	}
+	if v == nil {
+		for _, c := range w.all {
+			if n := atomic.LoadInt32(&c.unreadable); n > 0 {
+				v = &verdict{"message-without-timestamp", fmt.Sprintf("client %s was sent %d messages without a timestamp: the receive function of the common library refuses them", c.name, n)}
+				break
+			}
+		}
 	}
 	if v == nil && pid != 0 {
 		// the offender is closed first: its departure must reach the witnesses exactly once
@@ -720,6 +737,20 @@ func scenarioOrder(seed int64, idle, frame time.Duration) *verdict {
 	slow.send(&hagallpb.ParticipantJoinRequest{Type: hagallpb.MsgType_MSG_TYPE_PARTICIPANT_JOIN_REQUEST, Timestamp: now(), RequestId: rid(), SessionId: w.sidA})
 	time.Sleep(50 * time.Millisecond)
 	movable, _ := w.w2.addEntity()
+	// a component of the entity, of a type the slow member subscribes to (it can still send: it only does not read)
+	var tid uint32
+	w.w2.send(&hagallpb.EntityComponentTypeAddRequest{Type: hagallpb.MsgType_MSG_TYPE_ENTITY_COMPONENT_TYPE_ADD_REQUEST, Timestamp: now(), RequestId: rid(), EntityComponentTypeName: "order"})
+	if m, ok := w.w2.waitFor(hagallpb.MsgType_MSG_TYPE_ENTITY_COMPONENT_TYPE_ADD_RESPONSE, patience, nil); ok {
+		var b hagallpb.EntityComponentTypeAddResponse
+		m.DataTo(&b)
+		tid = b.EntityComponentTypeId
+	}
+	if tid != 0 {
+		slow.send(&hagallpb.EntityComponentTypeSubscribeRequest{Type: hagallpb.MsgType_MSG_TYPE_ENTITY_COMPONENT_TYPE_SUBSCRIBE_REQUEST, Timestamp: now(), RequestId: rid(), EntityComponentTypeId: tid})
+		time.Sleep(50 * time.Millisecond)
+		w.w2.send(&hagallpb.EntityComponentAddRequest{Type: hagallpb.MsgType_MSG_TYPE_ENTITY_COMPONENT_ADD_REQUEST, Timestamp: now(), RequestId: rid(), EntityComponentTypeId: tid, EntityId: movable, Data: []byte{1}})
+		w.w2.waitFor(hagallpb.MsgType_MSG_TYPE_ENTITY_COMPONENT_ADD_RESPONSE, patience, nil)
+	}
 	const total = 5000
 	body := bytes.Repeat([]byte{9}, 4000)
 	sent := make(chan struct{})
@@ -752,6 +783,9 @@ func scenarioOrder(seed int64, idle, frame time.Duration) *verdict {
 	go func() {
 		// the pose update first: it is relayed while the slow member's queue is full
 		w.w2.send(&hagallpb.EntityUpdatePose{Type: hagallpb.MsgType_MSG_TYPE_ENTITY_UPDATE_POSE, Timestamp: now(), EntityId: movable, Pose: &hagallpb.Pose{Px: 4242}})
+		if tid != 0 { // and an update of the component the slow member subscribes to
+			w.w2.send(&hagallpb.EntityComponentUpdate{Type: hagallpb.MsgType_MSG_TYPE_ENTITY_COMPONENT_UPDATE, Timestamp: now(), EntityComponentTypeId: tid, EntityId: movable, Data: []byte{0x42, 0x42}})
+		}
 		time.Sleep(200 * time.Millisecond) // a few frames: the update is on its way to the others before anything else of this member
 		eid, _ := w.w2.addEntity()
 		moved <- eid
@@ -804,6 +838,12 @@ func scenarioOrder(seed int64, idle, frame time.Duration) *verdict {
 					return b.EntityId == movable && b.Pose != nil && b.Pose.Px == 4242
 				}); !ok {
 					v = &verdict{"relays-lost", fmt.Sprintf("a recipient that caught up on a backlog was never relayed the pose update of entity %d, made by another member meanwhile", movable)}
+				} else if _, ok := slow.waitFor(hagallpb.MsgType_MSG_TYPE_ENTITY_COMPONENT_UPDATE_BROADCAST, patience, func(m hwebsocket.Msg) bool {
+					var b hagallpb.EntityComponentUpdateBroadcast
+					m.DataTo(&b)
+					return b.EntityComponent != nil && b.EntityComponent.EntityId == movable && bytes.Equal(b.EntityComponent.Data, []byte{0x42, 0x42})
+				}); !ok && tid != 0 {
+					v = &verdict{"notification-lost", fmt.Sprintf("a subscriber that caught up on a backlog was never notified of the update of the component (type %d, entity %d) made by another member meanwhile", tid, movable)}
 				}
 			}
 		case <-time.After(patience):
@@ -936,6 +976,7 @@ func scenarioConcurrent(seed int64, idle, frame time.Duration) *verdict {
 				mu.Unlock()
 			}
 			var eids []uint32
+			bigQueries := 0
 			for time.Now().Before(stopAt) {
 				switch r.Intn(14) {
 				case 0:
@@ -974,10 +1015,35 @@ func scenarioConcurrent(seed int64, idle, frame time.Duration) *verdict {
 						c.send(&odalpb.AssetInstanceAddRequest{Type: odalpb.MsgType_MSG_TYPE_ODAL_ASSET_INSTANCE_ADD_REQUEST, Timestamp: now(), RequestId: rid(), AssetId: "asset", EntityId: eids[r.Intn(len(eids))]})
 					}
 				case 10:
-					x, z := float32(r.Intn(20)), float32(r.Intn(20))
-					c.send(&dagazpb.DagazQuadSample{Type: dagazpb.MsgType_MSG_TYPE_DAGAZ_QUAD_SAMPLE, Timestamp: now(), Samples: []*dagazpb.Quad{{Center: &dagazpb.Point{X: x, Z: z}, Extents: &dagazpb.Point{X: 1, Z: 1}}}})
+					x, z, e := float32(r.Intn(20)), float32(r.Intn(20)), float32(1)
+					if seed%2 == 0 { // a venue, not a room: a grid of tens of thousands of cells, floors that span thousands of them
+						x, z, e = float32(r.Intn(260)-130), float32(r.Intn(260)-130), float32(5+r.Intn(55))
+					}
+					c.send(&dagazpb.DagazQuadSample{Type: dagazpb.MsgType_MSG_TYPE_DAGAZ_QUAD_SAMPLE, Timestamp: now(), Samples: []*dagazpb.Quad{{Center: &dagazpb.Point{X: x, Y: float32(r.Intn(3)) * 2, Z: z}, Extents: &dagazpb.Point{X: e, Z: e}}}})
 				case 11:
-					c.send(&dagazpb.DagazGetRegionRequest{Type: dagazpb.MsgType_MSG_TYPE_DAGAZ_GET_REGION_REQUEST, Timestamp: now(), RequestId: rid(), Min: &dagazpb.Point{X: -50, Z: -50}, Max: &dagazpb.Point{X: 50, Z: 50}})
+					lim := float32(50)
+					if seed%2 == 0 {
+						lim = 600
+					}
+					kind := r.Intn(3)
+					if kind == 0 && seed%2 == 0 {
+						// a query over a venue costs the server milliseconds (tens of them under the race detector): a few per
+						// client, so that the phase ends with the work done and not with a backlog
+						if bigQueries >= 6 {
+							kind = 1
+						}
+						bigQueries++
+					}
+					switch kind {
+					case 0:
+						c.send(&dagazpb.DagazGetRegionRequest{Type: dagazpb.MsgType_MSG_TYPE_DAGAZ_GET_REGION_REQUEST, Timestamp: now(), RequestId: rid(), Min: &dagazpb.Point{X: -lim, Z: -lim}, Max: &dagazpb.Point{X: lim, Z: lim}})
+					case 1:
+						x, z := float32(r.Intn(40)-20), float32(r.Intn(40)-20)
+						c.send(&dagazpb.DagazGetGroundPlaneRequest{Type: dagazpb.MsgType_MSG_TYPE_DAGAZ_GET_GROUND_PLANE_REQUEST, Timestamp: now(), RequestId: rid(),
+							Ray: &dagazpb.Ray{From: &dagazpb.Point{X: x, Y: 10, Z: z}, To: &dagazpb.Point{X: x, Y: -10, Z: z}}})
+					default:
+						c.send(&dagazpb.DagazGetDebugInfoRequest{Type: dagazpb.MsgType_MSG_TYPE_DAGAZ_GET_DEBUG_INFO_REQUEST, Timestamp: now(), RequestId: rid()})
+					}
 				case 12:
 					if len(eids) > 0 && r.Intn(3) == 0 {
 						c.send(&hagallpb.EntityDeleteRequest{Type: hagallpb.MsgType_MSG_TYPE_ENTITY_DELETE_REQUEST, Timestamp: now(), RequestId: rid(), EntityId: eids[0]})
@@ -1107,8 +1173,8 @@ func scenarioTypes(seed int64, idle, frame time.Duration) *verdict {
 var scenarios = map[string]func(int64, time.Duration, time.Duration) *verdict{
 	"churn": scenarioChurn, "types": scenarioTypes,
 	"concurrent": scenarioConcurrent,
-	"order": scenarioOrder,
-	"malformed": scenarioMalformed, "fields": scenarioFields, "burst": scenarioBurst, "abrupt": scenarioAbrupt, "stall-pose": scenarioStallPose, "stall-switch": scenarioStallSwitch, "bigframe": scenarioBigFrame,
+	"order":      scenarioOrder,
+	"malformed":  scenarioMalformed, "fields": scenarioFields, "burst": scenarioBurst, "abrupt": scenarioAbrupt, "stall-pose": scenarioStallPose, "stall-switch": scenarioStallSwitch, "bigframe": scenarioBigFrame,
 	"stall-chatty": scenarioStallChatty, "stall-silent": scenarioStallSilent, "idle": scenarioIdle,
 }
 
